@@ -94,6 +94,33 @@ def r_rep(repo, rep):
         rep.ok("R-REP", "Angle.Angle.reduce_deg", "|x| >= 360 branch: sign * (int(|x|) % 360 + frac(|x|)); smaller values returned unchanged")
     else:
         rep.violation("R-REP", "Angle.Angle.reduce_deg", "reduce-form", "reduce_deg does not reduce through `% 360` with the sign restored under an |x| >= 360 test")
+    # reduce_dms (feeds dms2deg): after every carry the pieces are bounded: degrees % 360, minutes and seconds < 60
+    fn = repo.func(MOD, "Angle.reduce_dms")
+    rep.fn(MOD, "Angle.reduce_dms")
+    nm = [a.arg for a in fn.args.args]
+    t = ret_term(repo, MOD, "Angle.reduce_dms", arg_terms={nm[0]: T.sym("NUM_D"), nm[1]: T.sym("NUM_M"), nm[2]: T.sym("NUM_S")})
+    ok = False
+    why = "does not return (degrees, minutes, seconds, sign)"
+    if t[0] == "tuple" and len(t) == 5:
+        de, mi, se = t[1], t[2], t[3]
+
+        def bounded(x, limit):
+            """x < limit on every phi leaf: mod(., limit) or a value on the not(>= limit) side of its own test"""
+            if x[0] == "call" and x[1] == "mod" and x[3] == T.num(limit):
+                return True
+            if x[0] == "phi" and x[1][0] == "cmp" and x[1][1] in ("GtE", "Gt") and x[1][3] == T.num(limit):
+                return bounded(x[2], limit) and (x[3] == x[1][2] or bounded(x[3], limit))
+            return False
+        ok_d = de[0] == "call" and de[1] == "mod" and de[3] == T.num(360)
+        ok_m, ok_s = bounded(mi, 60), bounded(se, 60)
+        ok = ok_d and ok_m and ok_s
+        why = "degrees are %sreduced modulo 360 after the carries; minutes %sbounded by 60; seconds %sbounded by 60" % (
+            "" if ok_d else "NOT ", "" if ok_m else "NOT ", "" if ok_s else "NOT ")
+    if ok:
+        rep.ok("R-REP", "Angle.Angle.reduce_dms", why)
+    else:
+        rep.violation("R-REP", "Angle.Angle.reduce_dms", "dms-unbounded",
+                      "sexagesimal reduction: " + why + " - dms2deg() can then return 360 or more and the stored value leaves (-360, 360)")
     # who may write
     for mn, q2, fn2 in repo.all_functions(include_demo=False, include_nested=True):
         if mn == MOD and q2.startswith(CLS + "."):
